@@ -403,6 +403,7 @@ fn run_program_inner<G: ParRig>(prog: Program<G>) {
     let seed = args.u64("seed", 1);
     let nworlds = args.u64("worlds", 20) as usize;
     let pools_only = args.u64("pools-only", 0) != 0;
+    let hook_only = args.u64("hook-only", 0) != 0;
     let jitter = args.u64("jitter", 0);
     let mut out = Out::default();
     let mut rng = Rng::new(mix2(seed, 0x5c4ed));
@@ -447,7 +448,7 @@ fn run_program_inner<G: ParRig>(prog: Program<G>) {
             }
         }
         for pi in 0..crate::par::POOL_SIZES.len() {
-            if pools_only || (wi + pi) % 3 == 0 {
+            if !hook_only && (pools_only || (wi + pi) % 3 == 0) {
                 modes.push(Mode::Pool(pi));
             }
         }
